@@ -49,7 +49,9 @@ def alias (a : Address) (suffix : String) : Address :=
   ⟨a.names.map (· ++ suffix), a.lens⟩
 
 /-- `combine_Address` -/
-def combine (a b : Address) : Address := ⟨a.names ++ b.names, a.lens ++ b.lens⟩
+def combine (a b : Address) : Except Err Address :=
+  if b.names.any (fun n => a.names.contains n) then .error .key       -- a name both addresses contain is refused, as in `add`
+  else .ok ⟨a.names ++ b.names, a.lens ++ b.lens⟩
 
 /-- `Address.__getitem__(str)`: `slice(v[0], v[-1]+1)`; a zero-length entry has an empty
     `arange`, so `v[item][0]` raises IndexError. Result `(start, stop)`. -/
